@@ -287,6 +287,22 @@ def run_method(ctx, fname, mode):
         pre = f.body[:f.body.index(loops[0])]
         body = loops[0].body
         arrays0 = {'x': {}}
+    # every component of the rate equations and (for the Jacobian) every coordinate is differenced: the loops run over range(n) with n
+    # the length of the state - not over a subset chosen from the stoichiometry or anything else
+    defs_ = {n_: v_ for n_, v_ in util.single_defs(f).items() if v_ is not None}
+    xarg = f.args.args[1].arg
+    full = ('range(len(%s))' % xarg, 'range(len(state_input))', 'range(len(x))', 'range(self.num_equations)', 'range(np.size(%s))' % xarg, 'range(%s.shape[0])' % xarg)
+    lps = [outer[0], inner[0]] if mode == 'J' else [loops[0]]
+    bad_iter = []
+    for lp_ in lps:
+        it_ = lp_.iter
+        if isinstance(it_, ast.Call) and src(it_.func) == 'range' and len(it_.args) == 1 and isinstance(it_.args[0], ast.Name) and it_.args[0].id in defs_:
+            it_ = ast.Call(func=it_.func, args=[defs_[it_.args[0].id]], keywords=[])       # range(n) with n = len(x): one step, not recursively
+        if src(it_).replace(' ', '') not in full:
+            bad_iter.append('loop over %s' % src(lp_.iter))
+    ctx.ob('R18.2-coverage', fname, not bad_iter, where,
+           'the %s loop%s over all n = len(state) indices' % ('row and column' if mode == 'J' else 'row', 's run' if mode == 'J' else ' runs'),
+           '; '.join(bad_iter))
     for method, p in METHODS.items():
         # the scheme name as the dispatch sees it: re-bindings of `method` before the loops (`method = method.lower()`) are applied
         mval = method
